@@ -72,13 +72,30 @@ extern "C" void h_keepalive(void) {
     vk_assert(r3 == 2 && vk_now_ms - t_resp == Kms + Kms / 2, "connection was not given up exactly 1.5 x keep-alive after the last byte arrived");
     vk_reach("timeout-after-traffic");
   } else {
-    // reconnect with a different Server Keep Alive: the ping timer follows the new value
-    uint16_t ska2 = vk_sym_u16(); vk_assume(ska2 >= 1 && ska2 <= VK_KMAX);
+    // reconnect with a different Server Keep Alive (possibly 0): both timers follow the new value from then on, cycle after cycle
+    uint16_t ska2 = vk_sym_u16(); vk_assume(ska2 <= VK_KMAX);
     w.drop_connection(); vk::drain(); bool ok2 = w.establish(); vk_assert(ok2, "client reconnects");
     x->has_ska = true; x->ska = ska2; x->connack(); int64_t t2 = vk_now_ms; int64_t K2 = (int64_t)ska2 * 1000;
-    int r2 = x->advance(); vk_assert(r2 == 1, "no PINGREQ on the new connection");
-    vk_assert(vk_now_ms - t2 <= K2, "PINGREQ on the new connection later than the new keep-alive");
-    vk_assert(x->read_t()->dur_ms == K2 + K2 / 2, "read timeout does not follow the new keep-alive");
+    // a PINGREQ that was queued while the reconnect was in progress may go out at once; complete it
+    if (auto* s0 = vk::pending_write()) { w.finish_write(s0, s0->wdata.size(), {}); vk::drain(); vk_reach("ping-during-reconnect"); }
+    bool zero2 = vk_concretize(ska2 == 0);
+    if (zero2) {
+      int before = w.count_of(ref::PINGREQ, w.epoch);
+      int r2 = x->advance(); vk_assert(r2 == 0 && w.count_of(ref::PINGREQ, w.epoch) == before, "PINGREQ sent although the new Server Keep Alive is 0");
+      vk_assert((!x->ping_t()->armed || x->ping_t()->max_wait) && (!x->read_t()->armed || x->read_t()->max_wait), "a keep-alive timer runs although the new Server Keep Alive is 0");
+      vk_reach("new-keepalive-zero");
+    } else {
+      int64_t t_prev = vk_now_ms;
+      for (int cycle = 0; cycle < 2; cycle++) {
+        vk_assert(x->ping_t()->armed && x->ping_t()->dur_ms == K2, "ping timer does not follow the new keep-alive");
+        int r2 = x->advance(); vk_assert(r2 == 1, "no PINGREQ on the new connection");
+        vk_assert(vk_now_ms - t_prev <= K2, "PINGREQ on the new connection later than the new keep-alive after CONNACK / the previous PINGREQ");
+        vk_assert(x->read_t()->dur_ms == K2 + K2 / 2, "read timeout does not follow the new keep-alive");
+        auto* s2 = vk::pending_write(); w.finish_write(s2, s2->wdata.size(), {}); vk::drain(); t_prev = vk_now_ms;
+        ref::wr o = w.outw(); o.u8(0xD0); o.u8(0x00); w.commit(o); w.feed_all(); vk::drain();      // PINGRESP keeps the connection alive
+      }
+      (void)t2;
+    }
     vk_reach("new-keepalive");
   }
 }
